@@ -65,14 +65,15 @@ def gen(seed, tier, layouts):
             ks = set(range(0, N + 1))
             stats["offset_kind"]["every"] += N + 1 - len(bnd)
         else:
-            stride = max(1, N // 24)
+            stride = max(1, N // 16)
             start = rnd.randrange(stride)
             ks = set(range(start, N + 1, stride)) | bnd
             stats["offset_kind"]["stride"] += len(ks - bnd)
         stats["offset_kind"]["boundary"] += len(bnd)
         n0 = len(cases)
         for k in sorted(ks):
-            full = tier != "thorough" or k in bnd or k % 7 == 0
+            # all faults at the interesting offsets; elsewhere (stride / every offset) the reduced set
+            full = k in bnd or (tier == "thorough" and k % 7 == 0) or (tier != "thorough" and k % 3 == 0)
             faults = []
             local_only = sc in ("thrd", "thru")   # out of quota the library does not poll the socket: only local teardown
             big = N > 20000 and not full     # long scripts (16 KiB blocks): off the boundaries only close + stop
@@ -84,8 +85,8 @@ def gen(seed, tier, layouts):
             for f in GLOBAL_FAULTS:
                 if f == "M" and np_ == 1 and not full:
                     continue
-                if f == "T" and not full:
-                    continue
+                if f == "T" and (not full or (tier != "thorough" and k % 2 and k not in (0, N))):
+                    continue            # the 500 s timeout is the slowest fault: every second offset in the quick tier
                 if big and (f != "S" or k % 2):
                     continue
                 if local_only and f not in "SCD":
